@@ -20,6 +20,28 @@ CLAIMED = {
         design='DESIGN.md §5 C11'),
 }
 
+ACC = ('the account / position kernel is modelled method by method in Gallina (Model/Position.v, Account.v, AccountRun.v); theorems are closed under the '
+       'global context; the model is tied to /repo on every run by replaying every recorded step of real back-tests (snapshots of the private '
+       'state before and after each bus event / API call) through the model inside coqc; property monitors over the same runs give the replay.')
+CLAIMED.update({
+    'C01': dict(text='Cash-ledger theorem over every list of kernel events (induction), per-event total-value lemmas (value moves only by price, flows, fees); ' + ACC,
+                technique='Coq proof (invariant by induction over event lists) + step-wise correspondence', design='DESIGN.md §5 C01'),
+    'C02': dict(text='Theorems for realised P&L of closes, margin formula, available cash, settlement neutrality and rebasing, expiry, forced liquidation; ' + ACC,
+                technique='Coq proof (algebraic lemmas per handler, ledger by induction) + step-wise correspondence', design='DESIGN.md §5 C02'),
+    'C03': dict(text='Theorems: nav x units = value, flow neutrality of deposits (immediate and pending), latch, compounding by telescoping, daily P&L = change of value '
+                     'for every day of trades and marks of an entry (partial: corporate-action days are C12); ' + ACC,
+                technique='Coq proof (algebra + induction over a day\'s events) + step-wise correspondence', design='DESIGN.md §5 C03'),
+    'C09': dict(text='Invariant: reserved cash = sum over open orders of the unfilled fraction of the initial reserve, for every protocol-conforming interleaving '
+                     '(induction over order events), non-negativity, zero with no open order, no-overdraft step lemma; ' + ACC,
+                technique='Coq proof (invariant by induction over order events) + step-wise correspondence', design='DESIGN.md §5 C09'),
+    'C10': dict(text='Invariant over the position x resting-closes machine with the validator: quantities, closable and today-closable stay non-negative for every '
+                     'sequence of opens, validated closes, fills, drops and day roll-overs; T+1, old-first, reject no-op corollaries; ' + ACC,
+                technique='Coq proof (invariant by induction) + step-wise correspondence', design='DESIGN.md §5 C10'),
+    'C12': dict(text='Value-neutrality theorems for book closure, payable date, integral splits, delisting payout, conversion and expiry; fractional splits and '
+                     'overlapping dividends are refuted by witnesses and recorded as known findings; ' + ACC,
+                technique='Coq proof (algebraic lemmas, refutation witnesses by vm_compute) + step-wise correspondence', design='DESIGN.md §5 C12'),
+})
+
 ALL = ['C%02d' % i for i in range(1, 21)]
 
 
